@@ -128,6 +128,8 @@ class G:
         j = r.randrange(0, s)
         b = 5 * 10 ** j
         a = (2 * r.randrange(0, 10 ** r.randrange(1, 12)) + 1) * 10 ** (s - 1 - j)
+        while abs(a) > MAX:
+            a //= 10
         return a, b
 
     def c02(self, n):
